@@ -254,7 +254,8 @@ func (l *Lexer) peekChar() byte {
 
 func (l *Lexer) prevChar() byte {
 	if l.readPosition < 2 {
-		return l.input[l.readPosition-1]
+		// there is no previous character at the first byte of the input
+		return 0
 	}
 	return l.input[l.readPosition-2]
 }
